@@ -39,6 +39,7 @@ type WL struct {
 	SubGroups      []schedv2alpha2.SubGroup
 	Topology       *schedv2alpha2.TopologyConstraint
 	LastStart      string
+	Tag            string // template name (kept as annotation verif/tag; lets findings name workloads stably)
 }
 
 type Builder struct {
@@ -77,7 +78,8 @@ func (b *Builder) Workload(wl WL) *Builder {
 		mm = 1
 	}
 	b.W.PodGroups = append(b.W.PodGroups, MkPodGroup(PGOpt{Name: wl.Name, Queue: wl.Queue, MinMember: mm, PriorityClass: pc,
-		Preemptibility: wl.Preemptibility, Rank: b.rank, SubGroups: wl.SubGroups, Topology: wl.Topology, LastStart: wl.LastStart}))
+		Preemptibility: wl.Preemptibility, Rank: b.rank, SubGroups: wl.SubGroups, Topology: wl.Topology, LastStart: wl.LastStart,
+		Annotations: map[string]string{"verif/tag": wl.Tag}}))
 	for i, ps := range wl.Pods {
 		b.rank++
 		name := fmt.Sprintf("%s-%d", wl.Name, i)
